@@ -82,6 +82,7 @@ Definition bad_surrogate (c : N) : bool :=
 (* a trailing slash requires a directory *)
 Definition resolve (w : world) (syspath : list N) : res N :=
   let path := unroot syspath in
+  if existsb (N.eqb 0) syspath then Err (XInternal IValue) else    (* ValueError: embedded null byte *)
   if existsb bad_surrogate syspath then Err (XInternal IUnicode) else
   i <- resolve_comps w (w_root w) (split_sep path sl) ;;
   if py_endswith path [sl] then
